@@ -519,7 +519,7 @@ def analyse_run(prog, F, W, run):
     else:
         writes = [d for (d, rhs) in ex.assignments_to(run, wfield) if d.k in ('CompoundAssignOperator', 'CXXOperatorCallExpr', 'BinaryOperator')]
         for d in writes:
-            if d.k == 'BinaryOperator' and d.op == '=':
+            if d.k == 'BinaryOperator' and d.op == '=' and not _accumulate_onto(d.c[1], wfield):
                 earlier = [w for w in writes if w is not d and cfg.reaches(w, d)]
                 if earlier:
                     F.add('R05b', d, run, 'the weights of both phases are added up', 'violation',
@@ -544,6 +544,34 @@ def analyse_run(prog, F, W, run):
                 else:
                     F.add('R05b', d, run, whatb, 'violation' if mw in ('G', 'S', 'T') and kw in ('G', 'S', 'T') else 'undecided',
                           'weight read with map world %s and key world %s' % (mw, kw), key='R05b|%s|index' % run.g)
+            elif _accumulate_onto(t, wfield):
+                # acc = std::accumulate(first, last, acc, [](W a, const Edge &e) { return a + get(W_G, e); })
+                from lib import par as _par
+                fs, _ln = _par.lambda_functions(prog, t.args()[3])
+                okl = False
+                why = 'functor of std::accumulate is not `acc + get(caller map, element)`'
+                for lf in fs:
+                    rs_ = ex.returns_of(lf)
+                    if len(lf.param_ids) == 2 and len(rs_) == 1 and rs_[0].c:
+                        r_ = rs_[0].c[0].strip_all()
+                        if r_.k in ('BinaryOperator', 'CXXOperatorCallExpr') and r_.op == '+':
+                            ops_ = r_.c if r_.k == 'BinaryOperator' else r_.c[1:]
+                            for a_, b_ in ((ops_[0], ops_[1]), (ops_[1], ops_[0])):
+                                bb = b_.strip_all()
+                                if ex.var_of(a_) == lf.param_ids[0] and bb.k == 'CallExpr' and bb.callee and bb.callee['g'] == 'boost::get' and len(bb.args()) == 2 and \
+                                        ex.var_of(bb.args()[1]) == lf.param_ids[1]:
+                                    mw, kw = atom(W.world(bb.args()[0])), atom(W.world(bb.args()[1]))
+                                    if mw == 'G' and kw == 'G':
+                                        okl = True
+                                    elif mw in ('G', 'S', 'T') and kw in ('G', 'S', 'T'):
+                                        why = 'weight read with map world %s and key world %s' % (mw, kw)
+                                        okl = None
+                if okl:
+                    F.add('R05b', d, run, whatb, 'ok', 'std::accumulate(acc + get(G-map, G-edge)) onto the running weight')
+                elif okl is None:
+                    F.add('R05b', d, run, whatb, 'violation', why, key='R05b|%s|get' % run.g)
+                else:
+                    F.add('R05b', d, run, whatb, 'undecided', why)
             elif t.k in ex.CALL_KINDS and t.callee and (t.callee['g'].startswith(BUILDER) or
                                                          FUNCTOR_RE.match(t.callee['g']) or EXACT_ENTRY_RE.match(t.callee['g'])):
                 if t.callee['g'].startswith(BUILDER):
@@ -709,6 +737,21 @@ def analyse_construct(prog, F, W, fn):
                             copied = True
             if n.k == 'CXXMemberCallExpr' and n.callee['name'] in ('assign', 'insert') and ex.var_of(n.object_arg()) == seq:
                 pass
+            # range construction / assign:  std::vector<Edge> seq(R.first, R.second)  with R = boost::edges(_g)
+            rng_args = None
+            if n.k == 'VarDecl' and n.decl_id == seq and n.c and n.c[0].strip().k in ex.CTOR_KINDS and len(n.c[0].strip().c) >= 2:
+                rng_args = n.c[0].strip().c[:2]
+            elif n.k == 'CXXMemberCallExpr' and n.callee['name'] == 'assign' and ex.var_of(n.object_arg()) == seq and len(n.args()) == 2:
+                rng_args = n.args()
+            if rng_args:
+                a0, a1 = rng_args[0].strip_all(), rng_args[1].strip_all()
+                if a0.k == 'MemberExpr' and a1.k == 'MemberExpr' and a0.decl and a1.decl and a0.decl['name'] == 'first' and a1.decl['name'] == 'second':
+                    b0, b1 = a0.c[0].strip_all(), a1.c[0].strip_all()
+                    rd = None
+                    if ex.var_of(b0) is not None and ex.var_of(b0) == ex.var_of(b1):
+                        rd = ex.unique_def(fn, ex.var_of(b0))
+                    if rd is not None and ex.callee_g(rd.strip_all()) == 'boost::edges' and atom(W.world(rd.strip_all().args()[0])) == 'G':
+                        copied = True
     if copied:
         F.add('R15a', loop, fn, whats, 'ok', 'std::copy(edges(_g).first, .second, back_inserter(seq))')
     else:
@@ -1030,6 +1073,12 @@ def stale_table_read(prog, fn, rhs, reach_call):
 
 
 _LOSSY_COPIES = []
+
+
+def _accumulate_onto(expr, acc):
+    """expr is std::accumulate(first, last, acc, f) with the accumulator itself as initial value"""
+    t = expr.strip_all()
+    return t.k == 'CallExpr' and t.callee is not None and t.callee['g'] == 'std::accumulate' and len(t.args()) == 4 and ex.var_of(t.args()[2]) == acc
 
 
 def _known_wrong_weight(W, val):
